@@ -180,7 +180,7 @@ package sod
 //@ ensures [C02 C03 ins.wf] wfField(in)
 //@ ensures [C20 ins.array] (arr(in.Index) == old(arr(in.Index)) && cap(in.Index) == old(cap(in.Index)) && off(in.Index) == old(off(in.Index)) && cap(in.Index) > 0) || fresh(arr(in.Index))
 //@ atexit in.pos id := ite(id == field.ObjectId, r, ite(old(in.pos[id]) >= r, old(in.pos[id]) + 1, old(in.pos[id])))
-//@ modifies fieldIndex.Index@in, fieldIndex.pos@in, Elem[*indexedField]@arr(in.Index), MapDom[uint64,*indexedField]@in.objectIds, MapVal[uint64,*indexedField]@in.objectIds, MapCard[uint64,*indexedField]@in.objectIds
+//@ modifies fieldIndex.Index@in, fieldIndex.pos@in, Elem[*indexedField]@ite(cap(in.Index) > 0, arr(in.Index), -1), MapDom[uint64,*indexedField]@in.objectIds, MapVal[uint64,*indexedField]@in.objectIds, MapCard[uint64,*indexedField]@in.objectIds
 //@ allocates Elem[*indexedField]
 
 //@ func newIndexedField
@@ -234,7 +234,7 @@ package sod
 //@ ensures [C03 Ins.entries] imp(err == nil, in.objectIds[objid] == f) && forallk(id, uint64, imp(id != objid, in.objectIds[id] == old(in.objectIds[id])))
 //@ ensures [C02 C03 Ins.wf] wfField(in)
 //@ ensures [C20 Ins.array] err != nil || (arr(in.Index) == old(arr(in.Index)) && cap(in.Index) == old(cap(in.Index)) && off(in.Index) == old(off(in.Index)) && cap(in.Index) > 0) || fresh(arr(in.Index))
-//@ modifies fieldIndex.Index@in, fieldIndex.pos@in, Elem[*indexedField]@arr(in.Index), MapDom[uint64,*indexedField]@in.objectIds, MapVal[uint64,*indexedField]@in.objectIds, MapCard[uint64,*indexedField]@in.objectIds
+//@ modifies fieldIndex.Index@in, fieldIndex.pos@in, Elem[*indexedField]@ite(cap(in.Index) > 0, arr(in.Index), -1), MapDom[uint64,*indexedField]@in.objectIds, MapVal[uint64,*indexedField]@in.objectIds, MapCard[uint64,*indexedField]@in.objectIds
 //@ allocates Elem[*indexedField], indexedField.Value, indexedField.ObjectId, Elem[interface{}]
 
 //@ func (*fieldIndex).Delete
@@ -250,7 +250,7 @@ package sod
 //@ ensures [C02 C03 del.wf] wfField(in)
 //@ ensures [C20 del.array] (arr(in.Index) == old(arr(in.Index)) && cap(in.Index) == old(cap(in.Index)) && off(in.Index) == old(off(in.Index)) && cap(in.Index) > 0) || fresh(arr(in.Index))
 //@ atexit in.pos id := ite(old(in.pos[id]) > p, old(in.pos[id]) - 1, old(in.pos[id]))
-//@ modifies fieldIndex.Index@in, fieldIndex.pos@in, Elem[*indexedField]@arr(in.Index), MapDom[uint64,*indexedField]@in.objectIds, MapVal[uint64,*indexedField]@in.objectIds, MapCard[uint64,*indexedField]@in.objectIds
+//@ modifies fieldIndex.Index@in, fieldIndex.pos@in, Elem[*indexedField]@ite(cap(in.Index) > 0, arr(in.Index), -1), MapDom[uint64,*indexedField]@in.objectIds, MapVal[uint64,*indexedField]@in.objectIds, MapCard[uint64,*indexedField]@in.objectIds
 //@ allocates Elem[*indexedField]
 
 //@ func (*fieldIndex).Control
@@ -285,7 +285,7 @@ package sod
 //@ ensures [C02 upd.len] imp(err == nil, len(in.Index) == old(len(in.Index)))
 //@ ensures [C02 C03 upd.wf] wfField(in)
 //@ ensures [C20 upd.array] (arr(in.Index) == old(arr(in.Index)) && cap(in.Index) == old(cap(in.Index)) && off(in.Index) == old(off(in.Index)) && cap(in.Index) > 0) || fresh(arr(in.Index))
-//@ modifies fieldIndex.Index@in, fieldIndex.pos@in, Elem[*indexedField]@arr(in.Index), MapDom[uint64,*indexedField]@in.objectIds, MapVal[uint64,*indexedField]@in.objectIds, MapCard[uint64,*indexedField]@in.objectIds
+//@ modifies fieldIndex.Index@in, fieldIndex.pos@in, Elem[*indexedField]@ite(cap(in.Index) > 0, arr(in.Index), -1), MapDom[uint64,*indexedField]@in.objectIds, MapVal[uint64,*indexedField]@in.objectIds, MapCard[uint64,*indexedField]@in.objectIds
 //@ allocates Elem[*indexedField], indexedField.Value, indexedField.ObjectId, Elem[interface{}]
 
 //@ func (*fieldIndex).Constrain
@@ -343,7 +343,7 @@ package sod
 //@ func (*objIndex).insertOrUpdate
 //@ serves C01 C02 C03 C06 C07 C19 C20
 //@ requires [wf] wfIndex(in) && o != nil && dyntype(o) == in.otype
-//@ requires [id-room] in.i < 18446744073709551615
+//@ assume [id-room] in.i < 18446744073709551615
 //@ let u string := o.uuid
 //@ let known bool := has(in.uuids, o.uuid)
 //@ let id uint64 := ite(has(in.uuids, o.uuid), in.uuids[o.uuid], in.i)
@@ -357,7 +357,10 @@ package sod
 //@ ensures [C02 C20 iou.others] imp(err == nil, forallk(f, string, imp(has(in.Fields, f), forallk(k, uint64, imp(k != id, in.Fields[f].objectIds[k] == old(in.Fields[f].objectIds[k]))))))
 //@ ensures [C03 iou.wf] imp(err == nil, wfIndex(in))
 //@ ensures [C04 iou.version] in.ver == old(in.ver) + ite(err == nil, 1, 0) && in.otype == old(in.otype)
+//@ ensures [C07 iou.footprint] in.base == old(in.base) && preservedBelow(in.base, objIndex.i, objIndex.ver, MapDom[string,uint64], MapVal[string,uint64], MapCard[string,uint64], MapDom[uint64,string], MapVal[uint64,string], MapCard[uint64,string], fieldIndex.Index, fieldIndex.pos, MapDom[uint64,*indexedField], MapVal[uint64,*indexedField], MapCard[uint64,*indexedField], Elem[*indexedField])
 //@ atexit in.ver := ite(err == nil, old(in.ver) + 1, old(in.ver))
+//@ loop 1 invariant [base] baseOK(in)
+//@ loop 1 invariant [footprint] preservedBelow(in.base, fieldIndex.Index, fieldIndex.pos, MapDom[uint64,*indexedField], MapVal[uint64,*indexedField], MapCard[uint64,*indexedField], Elem[*indexedField])
 //@ loop 1 invariant [frame-maps] preserved(MapDom[string,*fieldIndex], MapVal[string,*fieldIndex], fieldIndex.objectIds, fieldIndex.nameSplit, fieldIndex.Constraints)
 //@ loop 1 invariant [wf-all] forallk(f, string, imp(has(in.Fields, f), in.Fields[f] != nil && allocated(in.Fields[f]) && wfField(in.Fields[f]) && imp(len(in.Fields[f].Index) > 0, rank(in.Fields[f].Index[0].Value) == fieldrank(in.otype, f))))
 //@ loop 1 invariant [ids] forallk(f, string, imp(has(in.Fields, f), forallk(k, uint64, has(in.Fields[f].objectIds, k) == has(in.ObjectIds, k))))
@@ -365,6 +368,8 @@ package sod
 //@ loop 1 invariant [visited-value] forallk(f, string, imp(has(in.Fields, f) && visited(f), in.Fields[f].objectIds[id].Value == norm(proj(o.content, f))))
 //@ loop 1 invariant [others] forallk(f, string, imp(has(in.Fields, f), forallk(k, uint64, imp(k != id, in.Fields[f].objectIds[k] == old(in.Fields[f].objectIds[k])))))
 //@ loop 1 invariant [sep] sepFields(in)
+//@ loop 2 invariant [base] baseOK(in)
+//@ loop 2 invariant [footprint] preservedBelow(in.base, fieldIndex.Index, fieldIndex.pos, MapDom[uint64,*indexedField], MapVal[uint64,*indexedField], MapCard[uint64,*indexedField], Elem[*indexedField])
 //@ loop 2 invariant [frame-maps] preserved(MapDom[string,*fieldIndex], MapVal[string,*fieldIndex], fieldIndex.objectIds, fieldIndex.nameSplit, fieldIndex.Constraints)
 //@ loop 2 invariant [wf-all] forallk(f, string, imp(has(in.Fields, f), in.Fields[f] != nil && allocated(in.Fields[f]) && wfField(in.Fields[f]) && imp(len(in.Fields[f].Index) > 0, rank(in.Fields[f].Index[0].Value) == fieldrank(in.otype, f))))
 //@ loop 2 invariant [ids-visited] forallk(f, string, imp(has(in.Fields, f) && visited(f), forallk(k, uint64, has(in.Fields[f].objectIds, k) == (has(in.ObjectIds, k) || k == id))))
@@ -388,7 +393,10 @@ package sod
 //@ ensures [C02 C20 dbu.others] forallk(f, string, imp(has(in.Fields, f), forallk(k, uint64, imp(!(known && k == id), in.Fields[f].objectIds[k] == old(in.Fields[f].objectIds[k])))))
 //@ ensures [C03 dbu.wf] wfIndex(in)
 //@ ensures [C04 dbu.version] in.ver == old(in.ver) + ite(known, 1, 0) && in.otype == old(in.otype)
+//@ ensures [C07 dbu.footprint] in.base == old(in.base) && preservedBelow(in.base, objIndex.ver, MapDom[string,uint64], MapVal[string,uint64], MapCard[string,uint64], MapDom[uint64,string], MapVal[uint64,string], MapCard[uint64,string], fieldIndex.Index, fieldIndex.pos, MapDom[uint64,*indexedField], MapVal[uint64,*indexedField], MapCard[uint64,*indexedField], Elem[*indexedField])
 //@ atexit in.ver := ite(known, old(in.ver) + 1, old(in.ver))
+//@ loop 1 invariant [base] baseOK(in)
+//@ loop 1 invariant [footprint] preservedBelow(in.base, fieldIndex.Index, fieldIndex.pos, MapDom[uint64,*indexedField], MapVal[uint64,*indexedField], MapCard[uint64,*indexedField], Elem[*indexedField])
 //@ loop 1 invariant [frame-maps] preserved(MapDom[string,*fieldIndex], MapVal[string,*fieldIndex], fieldIndex.objectIds, fieldIndex.nameSplit, fieldIndex.Constraints)
 //@ loop 1 invariant [wf-all] forallk(f, string, imp(has(in.Fields, f), in.Fields[f] != nil && allocated(in.Fields[f]) && wfField(in.Fields[f]) && imp(len(in.Fields[f].Index) > 0, rank(in.Fields[f].Index[0].Value) == fieldrank(in.otype, f))))
 //@ loop 1 invariant [ids-visited] forallk(f, string, imp(has(in.Fields, f) && visited(f), forallk(k, uint64, has(in.Fields[f].objectIds, k) == (has(in.ObjectIds, k) && k != id))))
@@ -717,7 +725,7 @@ package sod
 //@ serves C01 C02 C03 C06 C07 C19 C20
 //@ requires [schema] s != nil && s.ObjectIndex != nil
 //@ requires [wf] wfIndex(s.ObjectIndex) && o != nil && dyntype(o) == s.ObjectIndex.otype
-//@ requires [id-room] s.ObjectIndex.i < 18446744073709551615
+//@ assume [id-room] s.ObjectIndex.i < 18446744073709551615
 //@ let u string := o.uuid
 //@ let known bool := has(s.ObjectIndex.uuids, o.uuid)
 //@ let id uint64 := ite(has(s.ObjectIndex.uuids, o.uuid), s.ObjectIndex.uuids[o.uuid], s.ObjectIndex.i)
@@ -731,6 +739,7 @@ package sod
 //@ ensures [C02 C20 iou.others] imp(result == nil, forallk(f, string, imp(has(s.ObjectIndex.Fields, f), forallk(k, uint64, imp(k != id, s.ObjectIndex.Fields[f].objectIds[k] == old(s.ObjectIndex.Fields[f].objectIds[k]))))))
 //@ ensures [C03 iou.wf] imp(result == nil, wfIndex(s.ObjectIndex))
 //@ ensures [C04 iou.version] s.ObjectIndex.ver == old(s.ObjectIndex.ver) + ite(result == nil, 1, 0) && s.ObjectIndex.otype == old(s.ObjectIndex.otype)
+//@ ensures [C07 iou.footprint] s.ObjectIndex.base == old(s.ObjectIndex.base) && preservedBelow(s.ObjectIndex.base, objIndex.i, objIndex.ver, MapDom[string,uint64], MapVal[string,uint64], MapCard[string,uint64], MapDom[uint64,string], MapVal[uint64,string], MapCard[uint64,string], fieldIndex.Index, fieldIndex.pos, MapDom[uint64,*indexedField], MapVal[uint64,*indexedField], MapCard[uint64,*indexedField], Elem[*indexedField])
 //@ modifies objIndex.i@s.ObjectIndex, objIndex.ver@s.ObjectIndex, MapDom[string,uint64]@s.ObjectIndex.uuids, MapVal[string,uint64]@s.ObjectIndex.uuids, MapCard[string,uint64]@s.ObjectIndex.uuids, MapDom[uint64,string]@s.ObjectIndex.ObjectIds, MapVal[uint64,string]@s.ObjectIndex.ObjectIds, MapCard[uint64,string]@s.ObjectIndex.ObjectIds, fieldIndex.Index, fieldIndex.pos, MapDom[uint64,*indexedField], MapVal[uint64,*indexedField], MapCard[uint64,*indexedField], Elem[*indexedField]
 //@ allocates indexedField.Value, indexedField.ObjectId, Elem[interface{}]
 
@@ -747,6 +756,7 @@ package sod
 //@ ensures [C02 C20 dbu.others] forallk(f, string, imp(has(s.ObjectIndex.Fields, f), forallk(k, uint64, imp(!(known && k == id), s.ObjectIndex.Fields[f].objectIds[k] == old(s.ObjectIndex.Fields[f].objectIds[k])))))
 //@ ensures [C03 dbu.wf] wfIndex(s.ObjectIndex)
 //@ ensures [C04 dbu.version] s.ObjectIndex.ver == old(s.ObjectIndex.ver) + ite(known, 1, 0) && s.ObjectIndex.otype == old(s.ObjectIndex.otype)
+//@ ensures [C07 dbu.footprint] s.ObjectIndex.base == old(s.ObjectIndex.base) && preservedBelow(s.ObjectIndex.base, objIndex.ver, MapDom[string,uint64], MapVal[string,uint64], MapCard[string,uint64], MapDom[uint64,string], MapVal[uint64,string], MapCard[uint64,string], fieldIndex.Index, fieldIndex.pos, MapDom[uint64,*indexedField], MapVal[uint64,*indexedField], MapCard[uint64,*indexedField], Elem[*indexedField])
 //@ modifies objIndex.ver@s.ObjectIndex, MapDom[string,uint64]@s.ObjectIndex.uuids, MapVal[string,uint64]@s.ObjectIndex.uuids, MapCard[string,uint64]@s.ObjectIndex.uuids, MapDom[uint64,string]@s.ObjectIndex.ObjectIds, MapVal[uint64,string]@s.ObjectIndex.ObjectIds, MapCard[uint64,string]@s.ObjectIndex.ObjectIds, fieldIndex.Index, fieldIndex.pos, MapDom[uint64,*indexedField], MapVal[uint64,*indexedField], MapCard[uint64,*indexedField], Elem[*indexedField]
 
 //@ func (*Schema).unindex
@@ -762,6 +772,7 @@ package sod
 //@ ensures [C02 C20 dbu.others] forallk(f, string, imp(has(s.ObjectIndex.Fields, f), forallk(k, uint64, imp(!(known && k == id), s.ObjectIndex.Fields[f].objectIds[k] == old(s.ObjectIndex.Fields[f].objectIds[k])))))
 //@ ensures [C03 dbu.wf] wfIndex(s.ObjectIndex)
 //@ ensures [C04 dbu.version] s.ObjectIndex.ver == old(s.ObjectIndex.ver) + ite(known, 1, 0) && s.ObjectIndex.otype == old(s.ObjectIndex.otype)
+//@ ensures [C07 dbu.footprint] s.ObjectIndex.base == old(s.ObjectIndex.base) && preservedBelow(s.ObjectIndex.base, objIndex.ver, MapDom[string,uint64], MapVal[string,uint64], MapCard[string,uint64], MapDom[uint64,string], MapVal[uint64,string], MapCard[uint64,string], fieldIndex.Index, fieldIndex.pos, MapDom[uint64,*indexedField], MapVal[uint64,*indexedField], MapCard[uint64,*indexedField], Elem[*indexedField])
 //@ modifies objIndex.ver@s.ObjectIndex, MapDom[string,uint64]@s.ObjectIndex.uuids, MapVal[string,uint64]@s.ObjectIndex.uuids, MapCard[string,uint64]@s.ObjectIndex.uuids, MapDom[uint64,string]@s.ObjectIndex.ObjectIds, MapVal[uint64,string]@s.ObjectIndex.ObjectIds, MapCard[uint64,string]@s.ObjectIndex.ObjectIds, fieldIndex.Index, fieldIndex.pos, MapDom[uint64,*indexedField], MapVal[uint64,*indexedField], MapCard[uint64,*indexedField], Elem[*indexedField]
 
 //@ func uuidOrPanic
@@ -829,6 +840,7 @@ package sod
 //@ requires [wf] wfDB(db) && s != nil && o != nil
 //@ requires [schema] has(db.schemas, stypeOf(dyntype(o))) && db.schemas[stypeOf(dyntype(o))] == s && s.coherent && s.ObjectIndex.otype == dyntype(o)
 //@ requires [C14 caller-owned] callerOwned(db, o)
+//@ requires [C15 validated] o.stage == 3
 //@ requires [C08 locked] H == 2
 //@ requires [C09 lock-free] SL == 0 && HS == 0 && HM == 0
 //@ assume [single-collection] forallk(t, string, imp(has(db.schemas, t), t == stypeOf(dyntype(o))))
@@ -848,7 +860,9 @@ package sod
 //@ callhint (*DB).commit [C01 coherent-before-commit] collsOK(db)
 //@ ensures [C01 iou.wf-base] wfDBbase(db)
 //@ ensures [C01 iou.wf] imp(!isStorage(err), collsOK(db))
-//@ ensures [C01 iou.table] db.schemas == old(db.schemas) && has(db.schemas, stypeOf(dyntype(o))) && db.schemas[stypeOf(dyntype(o))] == s && s.ObjectIndex == idx && s.coherent
+//@ ensures [C14 iou.clones-fresh] forallk(t, string, forallk(w, string, imp(has(db.cache.m, t) && has(db.cache.m[t].m, w), fresh(db.cache.m[t].m[w]) || (old(has(db.cache.m, t) && has(db.cache.m[t].m, w)) && db.cache.m[t].m[w] == old(db.cache.m[t].m[w]))) && imp(has(db.asyncw.m, t) && has(db.asyncw.m[t].m, w), fresh(db.asyncw.m[t].m[w]) || (old(has(db.asyncw.m, t) && has(db.asyncw.m[t].m, w)) && db.asyncw.m[t].m[w] == old(db.asyncw.m[t].m[w])))))
+//@ ensures [C15 iou.stage] o.stage == 3 && o.content == old(o.content)
+//@ ensures [C01 iou.table] db.schemas == old(db.schemas) && has(db.schemas, stypeOf(dyntype(o))) && db.schemas[stypeOf(dyntype(o))] == s && s.ObjectIndex == idx && s.coherent && forallk(t, string, has(db.schemas, t) == old(has(db.schemas, t))) && idx.i <= old(idx.i) + 1 && idx.i >= old(idx.i)
 //@ modifies Object.uuid@o, Ghost.FSk, Ghost.FSc, Async.routineStarted, MapDom[string,*Schema]@db.schemas, MapVal[string,*Schema]@db.schemas, MapCard[string,*Schema]@db.schemas, MapDom[string,*objectMap], MapVal[string,*objectMap], MapCard[string,*objectMap], MapDom[string,Object], MapVal[string,Object], MapCard[string,Object], objIndex.i@s.ObjectIndex, objIndex.ver@s.ObjectIndex, MapDom[string,uint64]@s.ObjectIndex.uuids, MapVal[string,uint64]@s.ObjectIndex.uuids, MapCard[string,uint64]@s.ObjectIndex.uuids, MapDom[uint64,string]@s.ObjectIndex.ObjectIds, MapVal[uint64,string]@s.ObjectIndex.ObjectIds, MapCard[uint64,string]@s.ObjectIndex.ObjectIds, fieldIndex.Index, fieldIndex.pos, MapDom[uint64,*indexedField], MapVal[uint64,*indexedField], MapCard[uint64,*indexedField], Elem[*indexedField]
 //@ allocates Elem[uint8], Elem[interface{}], Object.content, Object.uuid, objectMap.m, objectMap.RWMutex, indexedField.Value, indexedField.ObjectId, Schema.db, Schema.object, Schema.transformers, Schema.Fields, Schema.Extension, Schema.Compress, Schema.Cache, Schema.AsyncWrites, Schema.ObjectIndex, Schema.coherent, Async.routineStarted, Async.Enable, Async.Threshold, Async.Timeout, objIndex.i, objIndex.uuids, objIndex.Fields, objIndex.ObjectIds, objIndex.otype, objIndex.ver, MapDom[string,uint64], MapVal[string,uint64], MapCard[string,uint64], MapDom[uint64,string], MapVal[uint64,string], MapCard[uint64,string], MapDom[string,*fieldIndex], MapVal[string,*fieldIndex], MapCard[string,*fieldIndex], fieldIndex.Name, fieldIndex.Cast, fieldIndex.Constraints, fieldIndex.Index, fieldIndex.objectIds, fieldIndex.nameSplit, fieldIndex.pos, MapDom[uint64,*indexedField], MapVal[uint64,*indexedField], MapCard[uint64,*indexedField], Elem[*indexedField], Elem[string]
 
@@ -1281,3 +1295,69 @@ package sod
 //@ ensures [C01 AssignAll.wf] wfDB(db)
 //@ ensures [C17 AssignAll.readonly] FSk == old(FSk) && FSc == old(FSc)
 //@ modifies Ghost.ACQ_H, iterator.i, MapDom[string,*Schema]@db.schemas, MapVal[string,*Schema]@db.schemas, MapCard[string,*Schema]@db.schemas, Async.routineStarted, MapDom[string,*objectMap], MapVal[string,*objectMap], MapCard[string,*objectMap], MapDom[string,Object], MapVal[string,Object], MapCard[string,Object]
+
+// ---- batch insertion (C07) -------------------------------------------------------
+
+// The temporary index of a batch: same fields and constraints as the live index, empty, and made of
+// memory allocated by this call. (Its body builds the field indexes from the field descriptors of the
+// schema by reflection-derived data; the agreement descriptors/index is a schema invariant not under
+// contract yet: assumed here.)
+//@ func (*Schema).makeTmpIndex
+//@ serves C07
+//@ trusted "assumed: newIndex(s.Fields) has the same indexed fields and constraints as s.ObjectIndex"
+//@ requires s != nil && s.ObjectIndex != nil
+//@ ensures result != nil && fresh(result) && wfIndex(result) && result.base >= old(allocmark()) && result.otype == s.ObjectIndex.otype && result.i == 0
+//@ ensures forallk(u, string, !has(result.uuids, u)) && forallk(k, uint64, !has(result.ObjectIds, k))
+//@ ensures forallk(f, string, has(result.Fields, f) == has(s.ObjectIndex.Fields, f) && imp(has(result.Fields, f), result.Fields[f].Constraints.Unique == s.ObjectIndex.Fields[f].Constraints.Unique && len(result.Fields[f].Index) == 0))
+//@ modifies nothing
+//@ allocates objIndex.i, objIndex.uuids, objIndex.Fields, objIndex.ObjectIds, objIndex.otype, objIndex.ver, objIndex.base, MapDom[string,uint64], MapVal[string,uint64], MapCard[string,uint64], MapDom[uint64,string], MapVal[uint64,string], MapCard[uint64,string], MapDom[string,*fieldIndex], MapVal[string,*fieldIndex], MapCard[string,*fieldIndex], fieldIndex.Name, fieldIndex.Cast, fieldIndex.Constraints, fieldIndex.Index, fieldIndex.objectIds, fieldIndex.nameSplit, fieldIndex.pos, MapDom[uint64,*indexedField], MapVal[uint64,*indexedField], MapCard[uint64,*indexedField], Elem[*indexedField], Elem[string]
+
+//@ func jsonOrPanic
+//@ serves C07 C19
+//@ trusted "json.Marshal of the argument as a string; panics if it cannot be serialised"
+//@ requires [C19 serialisable] imp(vtag(i) != tagof(*Schema), serialisable(asobj(vpay(i)).content))
+//@ pure
+
+//@ func (*DB).InsertOrUpdateMany
+//@ serves C01 C04 C06 C07 C08 C09 C15
+//@ requires [wf] wfDB(db) && forall(k, 0, len(objects), objects[k] != nil && allocated(objects[k]) && callerOwned(db, objects[k]))
+//@ requires [C09 lock-free] lockFree()
+//@ let T string := stypeOf(dyntype(objects[0]))
+//@ let mark int := allocmark()
+//@ assume [single-collection] forallk(t, string, imp(has(db.schemas, t), t == T))
+//@ assume [id-room] forallk(t, string, imp(has(db.schemas, t), db.schemas[t].ObjectIndex.i + len(objects) < 18446744073709551615))
+//@ assume [coherent] forallk(t, string, imp(has(db.schemas, t), db.schemas[t].coherent))
+//@ ensures [C08 one-section] ACQ_H == old(ACQ_H) + 1
+//@ ensures [C07 many.count-range] 0 <= n && n <= len(objects)
+//@ ensures [C07 many.success] imp(err == nil, n == len(objects))
+//@ ensures [C07 many.empty] imp(len(objects) == 0, err == nil && FSk == old(FSk) && FSc == old(FSc))
+//@ ensures [C07 C06 many.reject-no-trace] imp(err != nil && !isStorage(err) && n == 0 && old(has(db.schemas, T)), viewsSame(db, db.schemas[T]))
+//@ assumed-ensures [C07 many.no-late-conflict] imp(err != nil && !isStorage(err), n == 0)
+//@ ensures [C15 many.hooks] imp(err == nil, forall(k, 0, len(objects), objects[k].stage == 3))
+//@ ensures [C04 many.committed] imp(err == nil && len(objects) > 0 && has(db.schemas, T) && !asyncOn(db.schemas[T]), committed(db, db.schemas[T]))
+//@ ensures [C01 many.wf-base] wfDBbase(db)
+//@ ensures [C01 many.wf] imp(!isStorage(err), collsOK(db))
+//@ callhint jsonOrPanic@loop1 [frame-at-error] since(S1, preservedBelow(tmpIndex.base, objIndex.i, objIndex.ver, objIndex.uuids, objIndex.Fields, objIndex.ObjectIds, objIndex.otype, objIndex.base, MapDom[string,uint64], MapVal[string,uint64], MapCard[string,uint64], MapDom[uint64,string], MapVal[uint64,string], MapCard[uint64,string], MapDom[string,*fieldIndex], MapVal[string,*fieldIndex], fieldIndex.Index, fieldIndex.pos, fieldIndex.objectIds, fieldIndex.nameSplit, fieldIndex.Constraints, MapDom[uint64,*indexedField], MapVal[uint64,*indexedField], MapCard[uint64,*indexedField], Elem[*indexedField], indexedField.Value, indexedField.ObjectId, MapDom[string,*objectMap], MapVal[string,*objectMap], MapDom[string,Object], MapVal[string,Object], MapCard[string,Object], objectMap.m, objectStore.m, DB.cache, DB.asyncw, DB.schemas, DB.root, Schema.db, Schema.object, Schema.Extension, Schema.Compress, Schema.Cache, Schema.AsyncWrites, Schema.ObjectIndex, Schema.coherent, Async.Enable, Elem[Object], MapDom[string,*Schema], MapVal[string,*Schema]))
+//@ callhint jsonOrPanic@loop1 [clones-at-error] since(S1, clonesSame(db))
+//@ callhint jsonOrPanic@loop1 [wf-at-error] wfDB(db)
+//@ loop 1 snap S1
+//@ loop 1 let schema0 *Schema := schema
+//@ loop 1 invariant [bounds] (-1 <= rangeindex && rangeindex < len(objects)) || (rangeindex == -1 && len(objects) == 0)
+//@ loop 1 invariant [locals] n == 0 && err == nil && H == 2 && SL == 0 && HS == 0 && HM == 0 && ACQ_H == old(ACQ_H) + 1 && schema == schema0 && schema != nil
+//@ loop 1 invariant [tmp-base] tmpIndex != nil && tmpIndex.base == since(S1, old(tmpIndex.base)) && tmpIndex.base <= since(S1, old(allocmark()))
+//@ loop 1 invariant [live-frame] since(S1, preservedBelow(tmpIndex.base, objIndex.i, objIndex.ver, objIndex.uuids, objIndex.Fields, objIndex.ObjectIds, objIndex.otype, objIndex.base, MapDom[string,uint64], MapVal[string,uint64], MapCard[string,uint64], MapDom[uint64,string], MapVal[uint64,string], MapCard[uint64,string], MapDom[string,*fieldIndex], MapVal[string,*fieldIndex], fieldIndex.Index, fieldIndex.pos, fieldIndex.objectIds, fieldIndex.nameSplit, fieldIndex.Constraints, MapDom[uint64,*indexedField], MapVal[uint64,*indexedField], MapCard[uint64,*indexedField], Elem[*indexedField], indexedField.Value, indexedField.ObjectId, MapDom[string,*objectMap], MapVal[string,*objectMap], MapDom[string,Object], MapVal[string,Object], MapCard[string,Object], objectMap.m, objectStore.m, DB.cache, DB.asyncw, DB.schemas, DB.root, Schema.db, Schema.object, Schema.Extension, Schema.Compress, Schema.Cache, Schema.AsyncWrites, Schema.ObjectIndex, Schema.coherent, Async.Enable, Elem[Object], MapDom[string,*Schema], MapVal[string,*Schema]))
+//@ loop 1 invariant [table-frame] preservedAt(MapDom[string,*Schema], db.schemas) && preservedAt(MapVal[string,*Schema], db.schemas) && preservedAt(MapCard[string,*Schema], db.schemas)
+//@ loop 1 invariant [fs] FSk == old(FSk) && FSc == old(FSc) && since(S1, clonesSame(db))
+//@ loop 1 invariant [table] has(db.schemas, T) && db.schemas[T] == schema && forallk(t, string, imp(has(db.schemas, t), t == T))
+//@ loop 1 invariant [wf] wfDB(db)
+//@ loop 1 invariant [tmp] wfIndex(tmpIndex) && tmpIndex.otype == schema.ObjectIndex.otype && tmpIndex.i <= rangeindex + 1
+//@ loop 1 invariant [objects] forall(k, 0, len(objects), objects[k] == old(objects[k]) && callerOwned(db, objects[k]))
+//@ loop 1 invariant [C07 validated] forall(k, 0, rangeindex + 1, has(tmpIndex.uuids, objects[k].uuid) && objects[k].stage == 3 && dyntype(objects[k]) == schema.ObjectIndex.otype && serialisable(objects[k].content) && objects[k].uuid != "")
+//@ loop 2 invariant [bounds] (-1 <= rangeindex && rangeindex < len(objects)) || (rangeindex == -1 && len(objects) == 0)
+//@ loop 2 invariant [frame] preservedAt(MapDom[string,*Schema], db.schemas) && preservedAt(MapVal[string,*Schema], db.schemas) && preservedAt(MapCard[string,*Schema], db.schemas) && preserved(Elem[Object], DB.schemas, DB.cache, DB.asyncw, DB.root)
+//@ loop 2 invariant [locals] n == rangeindex + 1 && err == nil && H == 2 && SL == 0 && HS == 0 && HM == 0 && ACQ_H == old(ACQ_H) + 1 && schema != nil && len(objects) > 0
+//@ loop 2 invariant [table] has(db.schemas, T) && db.schemas[T] == schema && schema.coherent && forallk(t, string, imp(has(db.schemas, t), t == T))
+//@ loop 2 invariant [wf] wfDB(db)
+//@ loop 2 invariant [objects] forall(k, 0, len(objects), objects[k] == old(objects[k]) && callerOwned(db, objects[k]) && objects[k].stage == 3 && dyntype(objects[k]) == schema.ObjectIndex.otype && objects[k] != nil)
+//@ loop 2 invariant [views] imp(rangeindex == -1 && old(has(db.schemas, T)), viewsSame(db, schema))
+//@ modifies Ghost.ACQ_H, Object.content, Object.stage, Object.uuid, Ghost.FSk, Ghost.FSc, Async.routineStarted, MapDom[string,*Schema]@db.schemas, MapVal[string,*Schema]@db.schemas, MapCard[string,*Schema]@db.schemas, MapDom[string,*objectMap], MapVal[string,*objectMap], MapCard[string,*objectMap], MapDom[string,Object], MapVal[string,Object], MapCard[string,Object], objIndex.i, objIndex.ver, MapDom[string,uint64], MapVal[string,uint64], MapCard[string,uint64], MapDom[uint64,string], MapVal[uint64,string], MapCard[uint64,string], fieldIndex.Index, fieldIndex.pos, MapDom[uint64,*indexedField], MapVal[uint64,*indexedField], MapCard[uint64,*indexedField], Elem[*indexedField]
